@@ -126,7 +126,9 @@ class CropMachine:
 
         if self.fspec is not None:
             # a new session: the user rebuilds the farmer and asks it for a crop
-            self.farmer_obj = self.fspec.build(self.fn)
+            # (or, reuse_farmer: the same session asks its farmer for another crop)
+            if not (getattr(self, "reuse_farmer", False) and self.farmer_obj is not None):
+                self.farmer_obj = self.fspec.build(self.fn)
             kw = self.ctor_kwargs()
             kw.pop("shuffle", None)
             return self.farmer_obj.Crop(name=self.NAME, parent_dir=self.root, **kw)
@@ -372,8 +374,13 @@ def query_progress(m, model, where):
                             "{}: str(crop) lacks '{}': {}".format(where, want, short(got[4], 200)))
 
 
-def checked_grow(m, model, how=None, ids=None):
-    """A grow op with the C08 oracles around it."""
+def checked_grow(m, model, how=None, ids=None, io_error=False):
+    """A grow op with the C08 oracles around it.  io_error: the first kernel
+    write of a result during this grow fails with ENOSPC (disk full) - the batch
+    being written must not count as finished, whatever is left behind."""
+    import re
+    from ..world import enospc
+
     t = m.tape
     missing = sorted(model.all - model.finished)
     before = G.snapshot_tree(m.location)
@@ -390,13 +397,40 @@ def checked_grow(m, model, how=None, ids=None):
     may_fail = any(model.poisoned(b) for b in targets)
     if how == "grow_missing" and not missing:
         may_fail = True  # growing nothing: whatever happens, nothing may change
-    how, ids, exc = m.grow_op(ids=ids, how=how, must_succeed=not may_fail)
+    failed_write = set()
+    if io_error:
+        armed = {"on": True}
+        resdir = os.path.join(m.location, "results")
+
+        def hook(world, actor, kind_, path, detail):
+            if armed["on"] and kind_ == "write" and isinstance(path, str) \
+                    and os.path.dirname(path) == resdir:
+                mt = re.search(r"xyz-result-(\d+)\.jbdmp", os.path.basename(path))
+                if mt:
+                    armed["on"] = False
+                    failed_write.add(int(mt.group(1)))
+                    return enospc()
+            return None
+
+        m.w.fault_hook = hook
+        may_fail = True
+    try:
+        how, ids, exc = m.grow_op(ids=ids, how=how, must_succeed=not may_fail)
+    finally:
+        m.w.fault_hook = None
     log_slice = calllog.LOG[log0:]
-    completed = model.completed_in(log_slice) & set(targets)
+    completed = (model.completed_in(log_slice) & set(targets)) - failed_write
+    if failed_write:
+        m.ctx.stats["grow-hit-disk-full"] += 1
     after = G.snapshot_tree(m.location)
     created, removed, modified = G.diff_trees(before, after)
     touched = set(created) | set(modified)
     allowed = {"results/xyz-result-{}.jbdmp".format(b) for b in completed}
+    # what a failed write may leave behind: a temporary sibling of that batch's result
+    # (never the result itself, never anything else)
+    for b in failed_write:
+        touched = {p for p in touched
+                   if not (p.startswith("results/xyz-result-{}.jbdmp.".format(b)) and "tmp" in p)}
     extra = touched - allowed
     if extra or removed:
         raise Violation(
@@ -449,7 +483,7 @@ def run_c08(ctx):
                         "op")
         kinds_done.add(op)
         if op == "grow":
-            checked_grow(m, model)
+            checked_grow(m, model, io_error=t.flag(1, 8, "disk-full-during-grow"))
         elif op == "poison":
             b = t.pick(sorted(model.all), "poison-batch")
             k = t.pick(model.keys[b], "poison-setting")
